@@ -216,6 +216,68 @@ def bdtQ (disc : α → α) (r : Nat → Nat → α) : Nat → Nat → α
 def bdtBackStep (d : Nat → α) (V : Nat → α) (k : Nat) : α :=
   (O.ofInt 1 / O.ofInt 2 * V (k + 1) + O.ofInt 1 / O.ofInt 2 * V k) * d k
 
+/-! ### the roll-back as the routines store it
+
+`bond_values`, `call_put_bond_values`, `call_option_values` are zero-initialised arrays; level `m` is
+written only at the nodes `k = -nm … nm`, `nm = min(m, j_max)` (`for k in range(-nm, nm+1)`), every other
+cell keeps its `0.0`.  The `…C` functions below are the levels exactly as stored; `Props/C03f` proves that
+on the written nodes they coincide with `bondBack / cpBack / optBack` (which are defined on every node). -/
+
+/-- a stored level: `f` on the nodes `-nm … nm`, the initial `0.0` elsewhere -/
+def onNodes (nm : Int) (f : Int → α) (j : Int) : α := if -nm ≤ j ∧ j ≤ nm then f j else O.ofInt 0
+
+def bondBackC (J : Nat) (p : Int → P3 α) (z : Nat → Int → α) (flow : Nat → α) (term : Int → α)
+    (M : Nat) : Nat → Int → α
+  | 0 => onNodes O (nmOf J M) term
+  | d + 1 => onNodes O (nmOf J (M - (d + 1)))
+      (bondLevel J p (z (M - (d + 1))) (flow (M - (d + 1))) (bondBackC J p z flow term M d))
+
+def cpBackC (J : Nat) (p : Int → P3 α) (z : Nat → Int → α) (flow acc put call : Nat → α) (term : Int → α)
+    (M : Nat) : Nat → Int → α
+  | 0 => onNodes O (nmOf J M) (fun j => cpClamp O (acc M) (put M) (call M) (term j))
+  | d + 1 =>
+    let m := M - (d + 1)
+    onNodes O (nmOf J m)
+      (cpLevel O J p (z m) (flow m) (acc m) (put m) (call m) (cpBackC J p z flow acc put call term M d))
+
+def optBackC (J : Nat) (p : Int → P3 α) (z : Nat → Int → α) (payoff : Nat → Int → α) (ex : Nat → Bool)
+    (M : Nat) : Nat → Int → α
+  | 0 => onNodes O (nmOf J M) (fun j => O.max (payoff M j) (O.ofInt 0))
+  | d + 1 =>
+    let m := M - (d + 1)
+    onNodes O (nmOf J m) (optLevel O J p (z m) (payoff m) (ex m) (optBackC J p z payoff ex M d))
+
+/-! ### backward induction on the BDT tree (`bdt_tree.py`: `vu = V[m+1, k+1]`, `vd = V[m+1, k]`) -/
+
+/-- one level of `bond_values` on the binomial tree; `dm k` is the one-period discount of node `k` -/
+def bdtBondLevel (dm : Nat → α) (flowm : α) (Vn : Nat → α) (k : Nat) : α := bdtBackStep O dm Vn k + flowm
+
+/-- option-free bond on the BDT tree, value at level `M - s` (terminal level `M`) -/
+def bdtBondBack (d : Nat → Nat → α) (flow : Nat → α) (term : Nat → α) (M : Nat) : Nat → Nat → α
+  | 0 => term
+  | s + 1 => bdtBondLevel O (d (M - (s + 1))) (flow (M - (s + 1))) (bdtBondBack d flow term M s)
+
+def bdtCpLevel (dm : Nat → α) (flowm accm putm callm : α) (Vn : Nat → α) (k : Nat) : α :=
+  cpClamp O accm putm callm (bdtBackStep O dm Vn k + flowm)
+
+/-- callable/puttable bond on the BDT tree -/
+def bdtCpBack (d : Nat → Nat → α) (flow acc put call : Nat → α) (term : Nat → α) (M : Nat) : Nat → Nat → α
+  | 0 => fun k => cpClamp O (acc M) (put M) (call M) (term k)
+  | s + 1 =>
+    let m := M - (s + 1)
+    bdtCpLevel O (d m) (flow m) (acc m) (put m) (call m) (bdtCpBack d flow acc put call term M s)
+
+def bdtOptLevel (dm : Nat → α) (paym : Nat → α) (exm : Bool) (Vn : Nat → α) (k : Nat) : α :=
+  let hold := bdtBackStep O dm Vn k
+  if exm then O.max (paym k) hold else hold
+
+/-- option on the bond on the BDT tree (same reading as `optBack`) -/
+def bdtOptBack (d : Nat → Nat → α) (payoff : Nat → Nat → α) (ex : Nat → Bool) (M : Nat) : Nat → Nat → α
+  | 0 => fun k => O.max (payoff M k) (O.ofInt 0)
+  | s + 1 =>
+    let m := M - (s + 1)
+    bdtOptLevel O (d m) (payoff m) (ex m) (bdtOptBack d payoff ex M s)
+
 end generic
 
 /-! ### the `Float` instance used by the driver -/
